@@ -315,13 +315,14 @@ CDRuns(cid, size, sect, sector, left) ==
 HandleReadCD(cs, fsys, req) ==
   LET ro == RoView(cs, fsys) IN
   IF ~cs.ro.open \/ cs.sect <= 0 THEN { Outcome(cs, fsys, RNone, TRUE) }
-  ELSE IF ro.undef \/ req.hugeArgs
+  ELSE IF ro.undef \/ ro.viso \/ req.hugeArgs     \* sector reads of a generated image: not a CD image, unspecified
        THEN { Outcome(cs, fsys, AnyResp, FALSE), Outcome(cs, fsys, AnyResp, TRUE), Outcome(cs, fsys, RNone, TRUE),
               Outcome(cs, fsys, RNone, FALSE) }
   ELSE LET runs == CDRuns(ro.cid, ro.size, cs.sect, req.start, req.count)
            full == RunsLen(runs) = req.count * CDUserBytes
-       IN IF full THEN { Outcome(cs, fsys, RawFull(runs), FALSE) }
-          ELSE { Outcome(cs, fsys, RawPrefix(runs), TRUE) }
+       IN \* one run per sector (the harness describes sector reads block by block, never merged)
+          IF full THEN { Outcome(cs, fsys, [k |-> "Raw", runs |-> NonEmpty(runs)], FALSE) }
+          ELSE { Outcome(cs, fsys, [k |-> "RawPrefix", runs |-> NonEmpty(runs)], TRUE) }
 
 (***************************************************************************)
 (* Mutating requests.  aw = writing enabled.                               *)
@@ -412,6 +413,18 @@ HandleDirSize(cs, fsys, req) ==
   ELSE { Outcome(cs, fsys, AnyResp, FALSE) }
 
 (***************************************************************************)
+(* A request that stops short (the client hangs up in the middle): the      *)
+(* connection ends without a byte.  One exception is left open: a complete  *)
+(* WRITE_FILE command whose payload is cut short may still be answered with *)
+(* the refusal (-1) before the connection ends, when the write would have   *)
+(* been refused anyway.                                                     *)
+(***************************************************************************)
+HandleTruncated(cs, fsys, req, aw) ==
+  IF req.of = "WRITE_FILE" /\ req.cut >= CommandLen /\ (~aw \/ ~cs.wo.open)
+  THEN { Outcome(cs, fsys, RNone, TRUE), Outcome(cs, fsys, Res4(-1), TRUE) }
+  ELSE { Outcome(cs, fsys, RNone, TRUE) }
+
+(***************************************************************************)
 (* Dispatch (handleCommand).  Unknown opcodes and truncated requests end    *)
 (* the connection without a byte.                                           *)
 (***************************************************************************)
@@ -431,7 +444,8 @@ Handle1(cs, fsys, req, aw, views) ==
     [] req.op = "RMDIR"              -> HandleRemove(cs, fsys, req, aw, TRUE)
     [] req.op = "MKDIR"              -> HandleMkdir(cs, fsys, req, aw)
     [] req.op = "GET_DIR_SIZE"       -> HandleDirSize(cs, fsys, req)
-    [] OTHER                         -> { Outcome(cs, fsys, RNone, TRUE) }   \* BAD_OPCODE, TRUNCATED
+    [] req.op = "TRUNCATED"          -> HandleTruncated(cs, fsys, req, aw)
+    [] OTHER                         -> { Outcome(cs, fsys, RNone, TRUE) }   \* BAD_OPCODE
 
 (* C01: a path that lexically rises above the root is clamped, or answered   *)
 (* exactly like a path that does not exist.                                  *)
